@@ -16,5 +16,7 @@ CONSTANTS
   MaxDigits <- SmallMaxDigits
   Extra <- NoExtra
   ExtraSeq <- NoExtraSeq
+  BufCap = 0
+  LosesIntegerDigits = FALSE
 INVARIANTS GrammarTotal UnderscoreAgree DenotAgree ScannersAgree FastPathExact AtofAgrees AtoiAgrees IntIsFloat CaseBlind DigitBlind ThresholdRule
 CHECK_DEADLOCK FALSE
